@@ -19,15 +19,24 @@ package options
 import (
 	"fmt"
 	"regexp"
+	"sort"
 	"strings"
 )
 
 // SubstituteVariables will perform variable substitution according to a substitution map.
 // Example: SubstituteVariables("echo ${job.name}", map[string]string{"job.name": "jobconfig-sample.1650645000"})
+//
+// Variables are substituted in sorted order of their names, so that the result does not depend on
+// Go's randomized map iteration order when a value itself contains variable syntax.
 func SubstituteVariables(target string, submap map[string]string) string {
-	for name, value := range submap {
+	names := make([]string, 0, len(submap))
+	for name := range submap {
+		names = append(names, name)
+	}
+	sort.Strings(names)
+	for _, name := range names {
 		search := fmt.Sprintf("${%v}", name)
-		target = strings.ReplaceAll(target, search, value)
+		target = strings.ReplaceAll(target, search, submap[name])
 	}
 	return target
 }
